@@ -97,7 +97,38 @@ func checkC13(p *Program, r *Report) {
 			r.Unk("wire field "+pf.path, "", fmt.Sprintf("expected a store under control label %s, found labels %s: option loads are no longer recognised", pf.lbl, wf.labels))
 		}
 	}
+	// ---- each prefix kind's payload is independent of the other prefix option: what LeafPrefix mode
+	// stores (and therefore rejects) must not depend on InnerPrefix being set, and vice versa
+	r.Rule("C13.payload-independent", "E2", "a prefix section's content does not depend on the other prefix option", 2)
+	for _, pr := range []struct{ section, other string }{{"Slim.LeafPrefixes", "opt:InnerPrefix"}, {"Slim.InnerPrefixes", "opt:LeafPrefix"}} {
+		var bad []string
+		n := 0
+		for _, wf := range bf.sortedWire() {
+			if !matchesField(wf.path, pr.section) {
+				continue
+			}
+			n++
+			tainted := wf.labels[pr.other]
+			for _, ev := range wf.stores {
+				if ev.labels[pr.other] || ev.ctl[pr.other] || ev.ctl[pr.other+"+"] || ev.ctl[pr.other+"-"] {
+					tainted = true
+				}
+			}
+			if tainted {
+				bad = append(bad, wf.path)
+			}
+		}
+		if n == 0 {
+			r.Unk("section "+pr.section, "", "not in the abstract output message")
+			continue
+		}
+		r.Check(len(bad) == 0, "section "+pr.section+" independent of "+pr.other, "", fmt.Sprintf("%d wire fields, none carries %s", n, pr.other),
+			fmt.Sprintf("wire field(s) %v depend on %s: the content of this prefix section changes with the other prefix option, so modes that should differ only by added payload build different payloads (e.g. a LeafPrefixes array without tails that rejects every retained key with a tail)", bad, pr.other))
+	}
 	checkOptNormalisation(p, r)
+	// ---- stored prefixes are decoded the same way in every mode that stores them (typestate rule of C10,
+	// incl. "the bit length of a stored prefix reads its marker byte")
+	checkSessionTypestate(p, r, "C13.session-valid")
 }
 
 // checkOptNormalisation (C13.complete): on the guarded summary of the option
@@ -315,6 +346,8 @@ func checkC17(p *Program, r *Report) {
 		r.Check(!tainted, "wire field "+wf.path, pos, "element width "+wf.labels.String()+" does not depend on key content",
 			"the element width of this per-node array is computed from key content (labels "+wf.labels.String()+"): lengthening keys without moving their branch points (a long common prefix, one long branch-free run) changes the cost of every node's entry, so the size of a filter-mode index depends on key length")
 	}
+	checkBigNodeThreshold(p, r)
+	checkBuildStateless(p, r, "C17.build-stateless")
 	r.Rule("C17.sections", "E2", "whether a per-node section of the message is built does not depend on key content", 4)
 	for _, wf := range bf.sortedWire() {
 		if payload(wf.path) || !wf.ptr {
@@ -469,4 +502,130 @@ func nodeCounterField(p *Program) string {
 		})
 	}
 	return name
+}
+
+// checkBigNodeThreshold (C17.bignode): a 257-bit node costs about 33 bytes of
+// bitmap whatever its fan-out; at the property's 8 bytes per key it needs at
+// least 5 children to pay for itself. In the construction function every place
+// that selects the 257-bit size is dominated by the true edge of a test that
+// the node's own child count (a value computed from the prefix counts of its
+// key range) exceeds a constant >= 4. A disjunct that makes nodes big for
+// another reason (their level, their position) lets 2-child nodes cost 33
+// bytes each.
+func checkBigNodeThreshold(p *Program, r *Report) {
+	r.Rule("C17.bignode", "CFG+E6", "a node is made 257-bit only under a lower bound on its own child count", 1)
+	entry := p.Trie.Func("NewSlimTrie")
+	F := findBuilder(p, entry)
+	if F == nil {
+		r.Unk("big-node decision", "", "construction function not found")
+		return
+	}
+	scan := []*ssa.Function{F}
+	for _, c := range callsIn(F) {
+		if g := calleeOf(c); g != nil && trieScope(g) && len(g.Blocks) > 0 {
+			scan = append(scan, g)
+		}
+	}
+	n := 0
+	for _, g := range dedupFuncs(scan) {
+		for _, b := range g.Blocks {
+			for _, in := range b.Instrs {
+				ph, ok := in.(*ssa.Phi)
+				if !ok || !isIntType(ph.Type()) {
+					continue
+				}
+				has17 := false
+				for _, ed := range ph.Edges {
+					if k, ok := constInt(ed); ok && k == 17 {
+						has17 = true
+					}
+				}
+				for i, ed := range ph.Edges {
+					k, ok := constInt(ed)
+					if !ok || k != 257 {
+						continue
+					}
+					if !has17 {
+						// the 17 may arrive through a nested phi; accept any phi that selects 257
+					}
+					n++
+					pred := b.Preds[i]
+					okDom := false
+					why := "the 257-bit size is selected in a block that is not dominated by a test of the node's child count"
+					for _, blk := range g.Blocks {
+						iff, ok := lastInstr(blk).(*ssa.If)
+						if !ok {
+							continue
+						}
+						bo, ok := iff.Cond.(*ssa.BinOp)
+						if !ok {
+							continue
+						}
+						var x ssa.Value
+						var kk int64
+						min := int64(0)
+						switch bo.Op {
+						case token.GTR:
+							if c, ok := constInt(bo.Y); ok {
+								x, kk, min = bo.X, c, 4
+							}
+						case token.GEQ:
+							if c, ok := constInt(bo.Y); ok {
+								x, kk, min = bo.X, c, 5
+							}
+						case token.LSS:
+							if c, ok := constInt(bo.X); ok {
+								x, kk, min = bo.Y, c, 4
+							}
+						case token.LEQ:
+							if c, ok := constInt(bo.X); ok {
+								x, kk, min = bo.Y, c, 5
+							}
+						}
+						if x == nil || !fromPrefixCounts(x, 0) {
+							continue
+						}
+						s := blk.Succs[0]
+						if len(s.Preds) == 1 && (s == pred || s.Dominates(pred)) {
+							if kk >= min {
+								okDom = true
+							} else {
+								why = fmt.Sprintf("the child-count threshold %d is too low for a 33-byte node at 8 bytes per key", kk)
+							}
+						}
+					}
+					r.Check(okDom, fmt.Sprintf("257-bit size selected in %s #%d", shortFn(g), n), p.Pos(pred.Instrs[0].Pos()), "dominated by child count > K, K >= 4", why+": nodes with two or three children can be made 257-bit and cost 33 bytes each, beyond 8 bytes per key")
+				}
+			}
+		}
+	}
+	if n == 0 {
+		r.Unk("big-node decision", p.Pos(F.Pos()), "no place selects the 257-bit bitmap size (anchor not found)")
+	}
+}
+
+// fromPrefixCounts: v is computed from the result of the significant-bit
+// index's prefix counting over the node's key range (sigbits CountPrefixes):
+// the number of distinct next words, i.e. the node's child count.
+func fromPrefixCounts(v ssa.Value, d int) bool {
+	if v == nil || d > 8 {
+		return false
+	}
+	switch x := v.(type) {
+	case *ssa.Call:
+		if g := calleeOf(x); g != nil && strings.HasSuffix(funcID(g), ".CountPrefixes") {
+			return true
+		}
+	case *ssa.Extract:
+		return fromPrefixCounts(x.Tuple, d+1)
+	case *ssa.UnOp:
+		return fromPrefixCounts(x.X, d+1)
+	case *ssa.IndexAddr:
+		return fromPrefixCounts(x.X, d+1)
+	case *ssa.Convert:
+		return fromPrefixCounts(x.X, d+1)
+	case *ssa.BinOp:
+		return fromPrefixCounts(x.X, d+1) || fromPrefixCounts(x.Y, d+1)
+	}
+	return false
 }
